@@ -311,7 +311,11 @@ class Run:
         return (base, mc)
 
     def _item(self, x):
-        return None if x is self.flush_obj else x
+        if x is self.flush_obj:
+            return None
+        if isinstance(x, tuple) and len(x) == 2 and all(isinstance(v, int) for v in x):
+            return x
+        return (-1, -1)  # something that was never sent
 
     def snapshot(self):
         self._assign_new_tasks()
@@ -327,7 +331,7 @@ class Run:
             "getters": [(getattr(f, "c12_owner", -1), bool(f.done())) for f in qo._getters],
             "putters": [(getattr(f, "c12_owner", -1), bool(f.done())) for f in qo._putters],
             "tasks": [self.task_status(i) for i in range(n)],
-            "recv": list(self.recv_log),
+            "recv": [(t, self._item(x)) for t, x in self.recv_log],
             "sent": [self._item(x) for x in self.sent_log if x is not self.flush_obj],
             "npre": self.npre or 0,
             "drained": bool(self.drained),
